@@ -22,14 +22,16 @@ Texts == [t1 |-> <<"T">>, t2 |-> <<"<", "b", ">">>, I |-> <<"I">>, J |-> <<"J">>
 IncScope == << T("text", "I", NoE, ""), T("if", "", X, ""), T("print", "", X, ""), T("end", "", NoE, ""),
                T("set", "x", ELit(<<"i">>), ""), T("setg", "y", ELit(<<"j">>), ""), T("print", "", X, "") >>
 IncData == << T("text", "J", NoE, ""), T("print", "", Dv, ""), T("if", "", Iv, ""), T("print", "", Iv, ""), T("end", "", NoE, "") >>
-Lib == [inc |-> IncScope, incd |-> IncData]
+\* a template that includes another one: the innermost sees the scopes of the whole chain of includers
+IncNested == << T("text", "J", NoE, ""), T("include", "inc", NoE, ""), T("if", "", Y, ""), T("print", "", Y, ""), T("end", "", NoE, "") >>
+Lib == [inc |-> IncScope, incd |-> IncData, inc2 |-> IncNested]
 
 \* ---------------- alphabets per theme
 Leafs ==
   CASE Theme = "flow" -> {T("text", "t1", NoE, ""), T("print", "", X, ""), T("print", "", Iv, ""), T("print", "", ELoop("index"), ""),
                           T("print", "", ELoop("last"), ""), T("set", "x", ENum(1), ""), T("setg", "y", ENum(2), "")}
     [] Theme = "scope" -> {T("text", "t1", NoE, ""), T("print", "", X, ""), T("print", "", Y, ""), T("set", "x", ELit(<<"s">>), ""),
-                           T("set", "y", X, ""), T("setg", "x", ELit(<<"g">>), ""), T("include", "inc", NoE, "")}
+                           T("set", "y", X, ""), T("setg", "x", ELit(<<"g">>), ""), T("include", "inc", NoE, ""), T("include", "inc2", NoE, "")}
     [] Theme = "capture" -> {T("text", "t2", NoE, ""), T("print", "", X, ""), T("print", "", Dv, ""), T("print", "", Iv, ""),
                              T("include", "incd", NoE, ""), T("set", "x", Dv, "")}
     [] Theme = "escape" -> {T("text", "t2", NoE, ""), T("print", "", Dv, ""), T("print", "", ELit(<<"'", "<">>), ""),
@@ -43,12 +45,12 @@ Leafs ==
                             T("set", "x", EFilt("safe", Dv), "")}
 IfConds == CASE Theme = "flow" -> {X, Iv, ELoop("first")} [] Theme = "scope" -> {X, Y} [] OTHER -> {X}
 ForHeads ==
-  CASE Theme = "flow" -> {T("for", "i", EVar("xs"), ""), T("for", "i", EVar("es"), ""), T("for", "i", EVar("s"), ""), T("for", "x", EVar("xs"), "")}
+  CASE Theme = "flow" -> {T("for", "i", EVar("xs"), ""), T("for", "i", EVar("es"), ""), T("for", "i", EVar("s"), ""), T("for", "x", EVar("xs"), ""), T("for", "i", EVar("u"), "")}
     [] Theme = "scope" -> {T("for", "x", EVar("xs"), ""), T("for", "i", EVar("xs"), "")}
     [] Theme = "capture" -> {T("for", "i", EVar("xs"), "")}
     [] Theme = "escape" -> {T("for", "i", Dv, ""), T("forkv", "i", EVar("m"), "x")}
 CapHeads ==
-  CASE Theme = "capture" -> {T("setblock", "x", NoE, ""), T("setblock", "x", NoE, "upper"), T("filter", "upper", NoE, ""), T("filter", "safe", NoE, "")}
+  CASE Theme = "capture" -> {T("setblock", "x", NoE, ""), T("setblock", "x", NoE, "upper"), T("setgblock", "x", NoE, ""), T("filter", "upper", NoE, ""), T("filter", "safe", NoE, "")}
     [] Theme = "escape" -> {T("setblock", "x", NoE, ""), T("setblock", "x", NoE, "upper"), T("filter", "upper", NoE, ""), T("filter", "wrap_safe", NoE, "")}
     [] OTHER -> {}
 HasElif == Theme = "flow"
@@ -56,16 +58,18 @@ HasBrk == Theme \in {"flow", "capture"}
 
 \* ---------------- environments
 DStr == StrV(<<"<", "a", "&">>, FALSE)
-Base == [d |-> DStr, xs |-> ArrV(<<IntV(1), IntV(2)>>), es |-> ArrV(<<>>), s |-> StrV(<<"p", "q">>, FALSE),
+\* u: a string of a 2-byte, a 3-byte and a 4-byte character (the harness maps ` ^ | to é 世 and an emoji)
+Base == [d |-> DStr, xs |-> ArrV(<<IntV(1), IntV(2)>>), es |-> ArrV(<<>>), s |-> StrV(<<"p", "q">>, FALSE), u |-> StrV(<<"`", "^", "|">>, FALSE),
          m |-> MapV(<<"a">>, <<StrV(<<"\"">>, FALSE)>>)]
-Env(ctx, gctx, ae) == [ctx |-> ctx, gctx |-> gctx, ae |-> ae, lib |-> Lib, texts |-> Texts]
+Env(ctx, gctx, ae) == [ctx |-> ctx, gctx |-> gctx, ae |-> ae, esc |-> "html", lib |-> Lib, texts |-> Texts]
 Envs ==
   CASE Theme \in {"flow", "capture"} -> << Env(Base, EmptyF, FALSE), Env(("x" :> IntV(0)) @@ Base, ("y" :> IntV(5)), FALSE) >>
     [] Theme = "scope" -> << Env(Base, EmptyF, FALSE),
                              Env(("x" :> StrV(<<"c">>, FALSE)) @@ Base, ("x" :> StrV(<<"G">>, FALSE)) @@ ("y" :> StrV(<<"H">>, FALSE)), FALSE),
                              Env(Base, ("x" :> StrV(<<"G">>, FALSE)), FALSE),
                              Env(("y" :> StrV(<<"k">>, FALSE)) @@ Base, EmptyF, FALSE) >>
-    [] Theme = "escape" -> << Env(Base, EmptyF, TRUE), Env(Base, EmptyF, FALSE), Env(("x" :> StrV(<<">">>, FALSE)) @@ Base, EmptyF, TRUE) >>
+    [] Theme = "escape" -> << Env(Base, EmptyF, TRUE), Env(Base, EmptyF, FALSE), Env(("x" :> StrV(<<">">>, FALSE)) @@ Base, EmptyF, TRUE),
+                              [Env(Base, EmptyF, TRUE) EXCEPT !.esc = "brackets"] >>
 
 VARIABLES prog, open, done
 vars == <<prog, open, done>>
@@ -110,10 +114,10 @@ UsesSafe(p) == \E i \in 1..Len(p) : UsesSafeE(p[i].e) \/ (p[i].k = "filter" /\ p
                                       \/ (p[i].k = "setblock" /\ p[i].m \in {"safe", "wrap_safe"})
 PlainTexts == [t1 |-> <<"T">>, t2 |-> <<"T">>, I |-> <<"I">>, J |-> <<"J">>]
 InvNoRawSpecials == done /\ ~UsesSafe(prog) =>
-  \A k \in 1..Len(Envs) : Envs[k].ae =>
+  \A k \in 1..Len(Envs) : Envs[k].ae /\ Envs[k].esc = "html" =>
      LET r == Run(prog, [Envs[k] EXCEPT !.texts = PlainTexts]) IN
      r.r = "ok" => \A i \in 1..Len(r.out) : r.out[i] \notin {"<", ">", "\"", "'"}
-EmitEnv == (prog = <<>> /\ ~done) => PrintT(<<"ENV", ToJson([envs |-> [k \in 1..Len(Envs) |-> [ctx |-> Envs[k].ctx, gctx |-> Envs[k].gctx, ae |-> Envs[k].ae]],
+EmitEnv == (prog = <<>> /\ ~done) => PrintT(<<"ENV", ToJson([envs |-> [k \in 1..Len(Envs) |-> [ctx |-> Envs[k].ctx, gctx |-> Envs[k].gctx, ae |-> Envs[k].ae, esc |-> Envs[k].esc]],
                                                               lib |-> Lib, texts |-> Texts])>>)
 Emit == done => PrintT(<<"VEC", ToJson([p |-> prog, r |-> [k \in 1..Len(Envs) |-> Res(Envs[k])]])>>)
 =============================================================================
